@@ -268,7 +268,7 @@ def native_tabulate(ctx, rule: str = "NATIVE.tabulated", only: tuple[str, ...] |
                 for b in bases:
                     for t in targets:
                         want = b.astimezone(LOCAL if t is None else t)
-                        me = Obj(_methods={}, _props=set(), _natives={}, _ctor=ClassStub(_new=_dt.datetime, _isa=lambda v: isinstance(v, _dt.datetime)),
+                        me = Obj(_methods=dm.methods_mro("DateTime"), _props=set(), _natives={}, _ctor=ClassStub(_new=_dt.datetime, _isa=lambda v: isinstance(v, _dt.datetime)),
                                  _super_natives={"astimezone": lambda tz=None, b=b: b.astimezone(LOCAL if tz is None else tz)},
                                  tzinfo=b.tzinfo, tz=b.tzinfo, timezone=b.tzinfo, **{k: getattr(b, k) for k in ("year", "month", "day", "hour", "minute", "second", "microsecond", "fold")})
                         got = minieval.call(fn, [me] + ([] if t is None else [t]), {}, glob)
